@@ -9,11 +9,13 @@ import multiprocessing, os, subprocess, tempfile, time, shutil
 NPROC = int(os.environ.get('VERIF_NPROC', '16'))
 
 
-def _solve_z3(smt2, timeout_ms, want_model=True):
+def _solve_z3(smt2, timeout_ms, want_model=True, ematching_only=False):
     import z3
     c = z3.Context()
     s = z3.Solver(ctx=c)
     s.set('timeout', timeout_ms)
+    if ematching_only:
+        s.set('smt.mbqi', False)
     s.from_string(smt2)
     t0 = time.time()
     r = s.check()
@@ -60,12 +62,22 @@ def _solve_cli(cmd, smt2, timeout_s):
 
 
 def solve_one(task):
-    idx, smt2, timeout_ms, fallbacks = task
+    idx, smt2, timeout_ms, fallbacks = task[:4]
+    pre = 0.0
+    if len(task) > 4 and task[4]:
+        # opt-in first pass (contract.ematching_first): quantifier instantiation by E-matching only.  Only `unsat` is used
+        # (a proof is a proof whatever the instantiation strategy); anything else falls through to the default strategy.
+        try:
+            r0, pre, _, _ = _solve_z3(smt2, min(timeout_ms, 5000), want_model=False, ematching_only=True)
+            if r0 == 'unsat':
+                return idx, 'proved', 'z3-%s (E-matching only)' % _z3ver(), pre, None, ''
+        except Exception:
+            pass
     try:
         r, dt, model, reason = _solve_z3(smt2, timeout_ms)
     except Exception as e:  # parse problem etc.
         return idx, 'error', 'z3', 0.0, None, 'z3 API: %r' % (e,)
-    total = dt
+    total = dt + pre
     if r == 'unsat':
         return idx, 'proved', 'z3-%s' % _z3ver(), total, None, ''
     if r == 'sat':
@@ -112,7 +124,7 @@ def discharge(obligations, timeout_ms=20000, fallbacks=True, nproc=None):
             if ob.kind == 'cover':
                 tasks.append((i, ob.smt2(), min(timeout_ms, 5000), False))
                 continue
-            tasks.append((i, ob.smt2(), timeout_ms, fallbacks))
+            tasks.append((i, ob.smt2(), timeout_ms, fallbacks, bool(getattr(getattr(ob, 'contract', None), 'ematching_first', False))))
         except Exception as e:
             ob.status, ob.output = 'error', 'serialisation: %r' % (e,)
     if not tasks:
